@@ -4,6 +4,7 @@ import (
 	"fmt"
 
 	"github.com/zclconf/go-cty/cty"
+	"github.com/zclconf/go-cty/cty/function"
 )
 
 func init() {
@@ -40,6 +41,20 @@ func runC12(c *Ctx) {
 	}
 	stdUnits(c, c.Thorough, cap, 20, func(u *U, fn *stdFn, lists [][]cty.Value) {
 		name := fn.Name
+		// where a parameter accepts null, every seed list also occurs with that argument null
+		// (a null is a wholly known value; it is then weakened like any other part)
+		var withNulls [][]cty.Value
+		for _, base := range lists {
+			withNulls = append(withNulls, base)
+			for i := range base {
+				if p, ok := stdParam(fn, i); ok && p.AllowNull && !base[i].IsNull() && base[i].Type() != cty.DynamicPseudoType {
+					nb := append([]cty.Value(nil), base...)
+					nb[i] = cty.NullVal(base[i].Type())
+					withNulls = append(withNulls, nb)
+				}
+			}
+		}
+		lists = withNulls
 		for _, base := range lists {
 			if c.Stopped() {
 				return
@@ -59,6 +74,7 @@ func runC12(c *Ctx) {
 			for i := range base {
 				ws[i] = typedWeakenings(base[i], 1, c.Thorough)
 			}
+			tag := ""
 			try := func(args []cty.Value, desc string) (cty.Value, bool) {
 				u.Eval(1)
 				u.DistinctN(1)
@@ -66,14 +82,14 @@ func runC12(c *Ctx) {
 				key := name + "(" + argsStr(args) + ")"
 				switch {
 				case oW.Panic != "":
-					u.Violation(name+".weakened-panics", shapesStr(args), fmt.Sprintf("%s(%s) succeeded with %s but the weakened call %s panicked: %s", name, argsStr(base), goStr(o0.V), key, firstLineOf(oW.Panic)))
+					u.Violation(name+".weakened-panics", tag+shapesStr(args), fmt.Sprintf("%s(%s) succeeded with %s but the weakened call %s panicked: %s", name, argsStr(base), goStr(o0.V), key, firstLineOf(oW.Panic)))
 					return cty.NilVal, false
 				case oW.Err != nil:
-					u.Violation(name+".weakened-fails", shapesStr(args), fmt.Sprintf("%s(%s) succeeded with %s but the weakened call %s failed: %s [%s]", name, argsStr(base), goStr(o0.V), key, firstLineOf(oW.Err.Error()), desc))
+					u.Violation(name+".weakened-fails", tag+shapesStr(args), fmt.Sprintf("%s(%s) succeeded with %s but the weakened call %s failed: %s [%s]", name, argsStr(base), goStr(o0.V), key, firstLineOf(oW.Err.Error()), desc))
 					return cty.NilVal, false
 				}
 				if ok, why := admits(oW.V, o0.V); !ok {
-					u.Violation(name+".excludes-concrete", shapesStr(args)+" => "+shapeOf(oW.V), fmt.Sprintf("%s(%s) = %s, but the weakened call %s = %s excludes it: %s", name, argsStr(base), goStr(o0.V), key, goStr(oW.V), why))
+					u.Violation(name+".excludes-concrete", tag+shapesStr(args)+" => "+shapeOf(oW.V), fmt.Sprintf("%s(%s) = %s, but the weakened call %s = %s excludes it: %s", name, argsStr(base), goStr(o0.V), key, goStr(oW.V), why))
 				}
 				switch {
 				case !oW.V.IsKnown() && oW.V.Type() == cty.DynamicPseudoType:
@@ -94,6 +110,10 @@ func runC12(c *Ctx) {
 				for _, w := range ws[i] {
 					args := append([]cty.Value(nil), base...)
 					args[i] = w.V
+					tag = ""
+					if base[i].IsNull() {
+						tag = "null-weakened: " // the replaced argument is a null: part of the violation's identity
+					}
 					rW, ok := try(args, fmt.Sprintf("arg%d %s", i, w.Desc))
 					if !ok {
 						continue
@@ -108,11 +128,12 @@ func runC12(c *Ctx) {
 						}
 						u.Class("alt-concretisation")
 						if ok, why := admits(rW, oA.V); !ok {
-							u.Violation(name+".excludes-other-concretisation", shapesStr(args)+" => "+shapeOf(rW), fmt.Sprintf("weakened call %s(%s) = %s; the weakened argument also admits %s, for which %s(%s) = %s, which the abstract result excludes: %s", name, argsStr(args), goStr(rW), goStr(alt), name, argsStr(cargs), goStr(oA.V), why))
+							u.Violation(name+".excludes-other-concretisation", tag+shapesStr(args)+" => "+shapeOf(rW), fmt.Sprintf("weakened call %s(%s) = %s; the weakened argument also admits %s, for which %s(%s) = %s, which the abstract result excludes: %s", name, argsStr(args), goStr(rW), goStr(alt), name, argsStr(cargs), goStr(oA.V), why))
 						}
 					}
 				}
 			}
+			tag = ""
 			if c.Thorough && len(base) >= 2 {
 				for i := 0; i < len(base); i++ {
 					for j := i + 1; j < len(base); j++ {
@@ -135,4 +156,16 @@ func firstN(ws []Weakened, n int) []Weakened {
 		return ws
 	}
 	return ws[:n]
+}
+
+// stdParam returns the declared parameter that argument i of fn binds to.
+func stdParam(fn *stdFn, i int) (function.Parameter, bool) {
+	ps := fn.F.Params()
+	if i < len(ps) {
+		return ps[i], true
+	}
+	if vp := fn.F.VarParam(); vp != nil {
+		return *vp, true
+	}
+	return function.Parameter{}, false
 }
